@@ -265,8 +265,50 @@ def coq_history(history):
     return coq_list(items)
 
 
+def operator_table(chk):
+    """deterministic: every code (known and unknown) x every operator x {bare operator in a with-block, explicit method} x operand kind.
+    Known code: bare operator == explicit method (bit for bit); unknown code: both routes must raise."""
+    import operator
+    import pyuncertainnumber.pba as pba
+    from pyuncertainnumber.pba.pbox_abc import Staircase
+    from pyuncertainnumber.pba.intervals.number import Interval
+    x = Staircase(np.linspace(1, 2, 200), np.linspace(1.5, 3, 200))
+    others = {"pbox": Staircase(np.linspace(2, 4, 200) ** 2 / 4, np.linspace(3, 5, 200) ** 2 / 4 + 1), "interval": Interval(2.0, 3.5)}
+    OPS = (("add", operator.add), ("sub", operator.sub), ("mul", operator.mul), ("div", operator.truediv))
+    for code in ("f", "p", "o", "i", "z", "", "perfect", "F", "ii", "fp"):
+        known = code in ("f", "p", "o", "i")
+        for oname, y in others.items():
+            for name, op in OPS:
+                outs = {}
+                for route in ("bare", "method", "bare_reflected"):
+                    try:
+                        if route == "bare":
+                            with pba.dependency(code):
+                                r = op(x, y)
+                        elif route == "bare_reflected":
+                            if oname == "pbox":
+                                continue
+                            with pba.dependency(code):
+                                r = op(y, x)
+                        else:
+                            r = getattr(x, name)(y, dependency=code)
+                        outs[route] = (np.asarray(r.left).tobytes(), np.asarray(r.right).tobytes())
+                    except Exception as e:
+                        outs[route] = "error:" + type(e).__name__
+                    chk.count("operator-table", key=("optable", code, oname, name, route))
+                rep = {"kind": "operator-table", "code": code, "operator": name, "other": oname, "outcomes": {k: (v if isinstance(v, str) else "value") for k, v in outs.items()}}
+                if known:
+                    if outs["bare"] != outs["method"] or isinstance(outs["bare"], str):
+                        chk.report("operators:" + name, f"bare operator {name} under ambient code {code!r} ({oname} operand) does not equal the explicit method with that dependency", rep)
+                else:
+                    for route, v in outs.items():
+                        if not isinstance(v, str):
+                            chk.report("operators:" + name, f"{route} {name} with the unknown dependency code {code!r} ({oname} operand) does not fail (it silently returns a result)", rep)
+
+
 def body(chk):
     pbx.patch_fast_moments()
+    operator_table(chk)
     pr = chk.do_proofs()
     rng = chk.rng
     ops = make_ops()
